@@ -153,7 +153,7 @@ def matrix():
 
 MATRIX = matrix()
 REPRESENTATIVE = {
-    ('lib', 'p8', 'default', 'absent'), ('lib', 'p8', 'LuaMinifyWriter', 'cart'),
+    ('lib', 'p8', 'default', 'absent'),
     ('lib', 'png', 'LuaFormatterWriter', 'cart'),
     ('lib-overwrite', 'p8', 'LuaMinifyTokenWriter', 'cart'),
     ('luafmt', 'p8', None, 'cart'), ('build', 'p8', None, 'cart'),
@@ -884,7 +884,8 @@ def jobs(prop, tier, seed, runs):
     for i in idxs:
         full = tier == 'thorough' or (i < len(MATRIX) and
                                       MATRIX[i] in REPRESENTATIVE and
-                                      MATRIX.index(MATRIX[i]) == i)
+                                      MATRIX.index(MATRIX[i]) == i and
+                                      not os.environ.get('PICOSIM_CONFIG'))
         nsplit = 8 if full else 1
         for j in range(nsplit):
             out.append({'kind': 'c11-writes', 'seed': seed, 'index': i,
@@ -894,7 +895,7 @@ def jobs(prop, tier, seed, runs):
             ncr = 1
         for j in range(ncr):
             out.append({'kind': 'c11-crash', 'seed': seed, 'index': i,
-                        'part': j, 'n': 11 if tier == 'quick' else 40,
+                        'part': j, 'n': 9 if tier == 'quick' else 40,
                         'tier': tier})
         out.append({'kind': 'c11-internal', 'seed': seed, 'index': i,
                     'tier': tier})
